@@ -6,6 +6,14 @@ FAMILY = "mc.families.c03"
 
 
 def run(tier, seed, jobs):
+    res = _run_a(tier, seed, jobs)
+    return c01.add_thread_scenarios(
+        res, "mc.families.c03_threads", tier, seed, jobs,
+        "a coroutine started by from_thread.run() from a worker thread lives in the caller's "
+        "scope: cancelled before or after it starts, with and without a shield in between")
+
+
+def _run_a(tier, seed, jobs):
     return c01.run(tier, seed, jobs, family=FAMILY, rule=(
         "scope-tree programs: 3 nested scopes with every shield assignment, inner bodies "
         "(blocked, runnable, catch-and-block-again x1/x2, shielded cleanup), cancel() by the "
